@@ -28,6 +28,11 @@ def run_flatten_case(p):
     rng = random.Random(p['seed'])
     dom = O.make_domain(rng, p.get('n', 3), falsy=p.get('falsy', False))
     cond = O.gen_cond(rng, 1, 1, falsy=False, vocab=('cmp', 'name'), neg=False)
+    if p.get('singletons'):
+        # some parents hold ONE non-iterable value (an int, a string) instead of a collection: a single element
+        for o in dom:
+            if rng.random() < 0.5:
+                o.tags = rng.choice([7, 0, 'xy', 3])
     try:
         got, want, q = O.run_flatten(dom, p.get('with_cond', False), p.get('select_parent', True), cond,
                                      element_first=p.get('element_first', False))
